@@ -1191,6 +1191,8 @@ def oracle_stats2(s, recs):
     for r in recs:
         d = dict(r)
         if any(g not in d for g in s["gs"]):
+            if s["s"]:                               # -s: a record lacking a group-by field passes through unchanged
+                exp.append([(kk, ("text", vv)) for kk, vv in r])
             continue
         key = gkey(d, s["gs"])
         if key not in groups:
